@@ -62,7 +62,10 @@ def positive_monitor(ctx, s, before, after, t, sol):
     for n in N:
         if sol[n].dtype.kind == "c":
             bad.append((n + " complex", 0.0))
-    ctx.observe("adm.positive", name, not bad, branch=f, detail=dict(bad=bad, t=t, n=len(sol),
+    br = f
+    if f == "EPpiston":
+        br += " piston slower than the precursor's particle velocity" if not (s.up > s.vel_y) else (" overdriven" if not (s.wv_pl < s.wv_el) else "")
+    ctx.observe("adm.positive", name, not bad, branch=br, detail=dict(bad=bad, t=t, n=len(sol),
                 params={k: getattr(s, k) for k in getattr(s, "parameters", {}) if isinstance(getattr(s, k, None), (int, float, str))}) if bad else None)
 
 
@@ -270,6 +273,23 @@ def run_pis(ctx, p):
                     detail=dict(kw=kw, t=t, x=float(x[j]), value=[float(rho[j]), float(pr[j]), float(u[j])], neighbours=[list(map(float, st)) for st in states]))
 
 
+def gen_sub(rng, i, tier):
+    kw = C.gen_piston(rng, None)
+    return dict(kw=kw, frac=choice(rng, [0.0, uni(rng, 0.01, 0.9)]))
+
+
+def run_sub(ctx, p):
+    """piston speeds accepted by the constructor (up >= 0) but below the elastic precursor's particle velocity"""
+    from exactpack.solvers.ep_piston.ep_piston import EPpiston
+    kw = dict(p["kw"])
+    s0 = ctx.make(EPpiston, **kw)
+    kw["up"] = p["frac"] * float(s0.vel_y)
+    s = ctx.make(EPpiston, **kw)
+    xmax = 1.0
+    t = 0.5 * xmax / s.wv_el
+    ctx.call(s, np.linspace(0.0, xmax, 41), t)
+
+
 # ---- EHEP, SDRZ, Noh, Sedov, Guderley sequences -----------------------------------------------------------------------------
 def gen_seq(rng, i, tier):
     return dict(entry=["EscapeOfHEProducts", "SteadyDetonationReactionZone", "Noh", "Sedov", "Guderley"][i % 5], seed=int(rng.integers(2 ** 31)))
@@ -388,6 +408,7 @@ UNITS = [
     Unit("riemann.geneos", gen_rm("GenEOS"), run_rm, quick=12, thorough=160, min_nontrivial=20),
     Unit("mader", gen_mader, run_mader, quick=160, thorough=3200, min_nontrivial=200),
     Unit("piston", gen_pis, run_pis, quick=90, thorough=1800, min_nontrivial=100),
+    Unit("piston.subyield", gen_sub, run_sub, quick=12, thorough=120, min_nontrivial=6),
     Unit("sequence", gen_seq, run_seq, quick=100, thorough=2000, min_nontrivial=60),
     Unit("suolson", gen_so, run_so, quick=24, thorough=480, min_nontrivial=40),
 ]
